@@ -1165,7 +1165,20 @@ def s_as_secs_f64(eng, frame, st, args, fj, depth, site):
     yield st, _val(eng, st, args[0])
 
 
+def s_discriminant_value(eng, frame, st, args, fj, depth, site):
+    v = _val(eng, st, args[0])
+    tys = (fj or {}).get("args") or []
+    variants = ()
+    if tys:
+        adt = eng.fx.adts.get(tys[0].lstrip("&"))
+        if adt:
+            variants = tuple((x["name"], x["discr"]) for x in adt["variants"])
+    yield st, eng.discr_of(v, variants)
+
+
 DEFAULT_SUMMARIES = {
+    "std::intrinsics::discriminant_value": s_discriminant_value,
+    "core::intrinsics::discriminant_value": s_discriminant_value,
     "std::cmp::PartialOrd::lt": s_cmp("Lt"),
     "std::cmp::PartialOrd::le": s_cmp("Le"),
     "std::cmp::PartialOrd::gt": s_cmp("Gt"),
